@@ -704,7 +704,7 @@ fn run_replay(r: &C16Replay, stats: &mut Stats, sample: Option<&mut Vec<String>>
         // ---- mutate, then re-pull
         let elems: Vec<Node> = x.descendants(doc).take(NODE_LIMIT).filter(|n| x.is_element(*n)).collect();
         if let Some(e) = rng.pick_opt(&elems).copied() {
-            match rng.below(10) {
+            match rng.below(11) {
                 7 => {
                     // text built from pieces: adjacent text nodes exist only while consolidation is off;
                     // pieces that form markup-significant sequences across the boundary
@@ -725,6 +725,21 @@ fn run_replay(r: &C16Replay, stats: &mut Stats, sample: Option<&mut Vec<String>>
                     x.set_attribute(e, sp, rng.pick_str(&["preserve", "preserve", "default"]));
                     log.push("set xml:space".into());
                     stats.inc("probe/c16_xml_space_set");
+                }
+                10 => {
+                    // the xml prefix bound to something else on this element (the API and the parser
+                    // allow it); explicit declarations of the built-in pair below get their meaning
+                    // from being written there
+                    let xp = x.xml_prefix();
+                    let other = x.add_namespace("urn:not-xml");
+                    x.namespaces_mut(e).insert(xp, other);
+                    let first_elem = x.children(e).find(|c| x.is_element(*c));
+                    if let Some(c) = first_elem {
+                        let xn = x.xml_namespace();
+                        x.namespaces_mut(c).insert(xp, xn);
+                    }
+                    log.push("rebind the xml prefix, redeclare it below".into());
+                    stats.inc("probe/c16_xml_prefix_rebound");
                 }
                 9 => {
                     // character data without markup characters but with characters that need a reference
@@ -820,6 +835,7 @@ impl PropEngine for C16Engine {
     fn run_one(&self, run_index: u64, run_seed: u64, _known: &KnownFile, stats: &mut Stats) -> Option<EngineFailure> {
         let mut rng = Rng::new(run_seed);
         let mut cfg = GenCfg::swarm(&mut rng);
+        cfg.xml_prefix_decl_pct = *rng.pick(&[0u32, 0, 5]);
         cfg.xml_id_pct = cfg.xml_id_pct.min(10);
         let doc = absdoc::gen_doc(&mut rng, &cfg);
         let mut r = C16Replay { doc, obs_seed: rng.next(), hash_seed: rng.next(), enumerate_sink: run_index % 3 == 0, fragment: None };
